@@ -2,12 +2,12 @@
 // SPDX-License-Identifier: Apache-2.0
 
 use crate::api::{inner_print_compiler_errors, print_compiler_errors};
+#[cfg(feature = "oq3_verif")]
+use crate::verif_seam::{env, fs, PathBufIsFile};
 use oq3_syntax::ast as synast; // Syntactic AST
 use oq3_syntax::ParseOrErrors;
 use oq3_syntax::SyntaxError;
 use oq3_syntax::TextRange;
-#[cfg(feature = "oq3_verif")]
-use crate::verif_seam::{env, fs, PathBufIsFile};
 #[cfg(not(feature = "oq3_verif"))]
 use std::env;
 #[cfg(not(feature = "oq3_verif"))]
